@@ -82,6 +82,8 @@ type Exec struct {
 	exports map[string]map[string]model.Doc
 	// inCrashSettle: the op's post-state is being reconstructed after a crash
 	inCrashSettle bool
+	// faultable store calls made by the last primary public call
+	targetFCalls, lastTargetFCalls int
 	// Acks is called after every completed op (worker mode).
 	Acks func(i int)
 }
@@ -177,6 +179,9 @@ func (e *Exec) invoke(primary bool, f func() error) (err error) {
 		e.Ctl.ClearPlan()
 	}()
 	err = f()
+	if primary {
+		e.targetFCalls = e.Ctl.FCalls
+	}
 	if e.Ctl.TxOpen != 0 {
 		props := []string{"C20"}
 		if err != nil {
